@@ -300,6 +300,11 @@ func (g *genState) genPub() Op {
 		// refused, and nothing of the batch may ever show up
 		i := rng.Intn(n)
 		op.Msgs[i].Pad = maxBody + 1 + int64(rng.Intn(64)) - int64(len(op.Msgs[i].Key)+len(op.Msgs[i].Val))
+		if rng.Chance(40) {
+			// key and value each within the limit, together beyond it
+			op.Msgs[i].KPad = op.Msgs[i].Pad / 2
+			op.Msgs[i].Pad -= op.Msgs[i].KPad
+		}
 	}
 	return op
 }
